@@ -464,10 +464,12 @@ where
             &line[rspace + 1..]
         };
         let name_span;
+        // `orig_name` is the end of `line`: it starts after the blank, or after the `<state>` that
+        // follows the blank.
+        let name_off = i + line.len() - orig_name.len();
         let dupe = if orig_name == ";" || orig_name == r#""""# || orig_name == "''" {
             name = None;
-            let pos = i + rspace + 1;
-            name_span = Span::new(pos, pos);
+            name_span = Span::new(name_off, name_off);
             false
         } else {
             if orig_name.len() <= 2
@@ -477,7 +479,7 @@ where
                 return Err(self.mk_error(LexErrorKind::InvalidName, i + rspace + 1));
             }
             name = Some(orig_name[1..orig_name.len() - 1].to_string());
-            name_span = Span::new(i + rspace + 2, i + rspace + orig_name.len());
+            name_span = Span::new(name_off + 1, name_off + orig_name.len() - 1);
             self.rules.iter().any(|r| {
                 let dupe = r.name().is_some_and(|n| n == name.as_ref().unwrap());
                 if dupe {
